@@ -64,7 +64,7 @@ func init() {
 			obNumText(c, "C13.1")
 			obNumRender(c, "C13.2")
 			obTypeTables(c, "C13.3")
-			ob := c.R.Ob("C13.4", "numtext/scale", "percentage readers (literal and variable) scale by ten to the power 2 + number of fraction digits, in exact integer arithmetic", 2)
+			ob := c.R.Ob("C13.4", "numtext/scale", "percentage readers (literal and variable) scale by ten to the power 2 + number of fraction digits, in exact integer arithmetic", 0)
 			c.PercentScale(ob, map[string]bool{relParser: true, relInterp: true})
 		},
 	}
